@@ -183,8 +183,10 @@ def explore(mod, K, part=None, start=None, force_first_abort=None):
     else: prevs = preds.get(start, [None])
     st = State(); fr = Frame(f); fr.blk = start; fr.prev = prevs[0]; st.frames.append(fr)
     ex.fork_filter = _FILTER
+    UC_KEEP = ('_Znwm', '_Znam', '_ZdlPv', '_ZdaPv', '__cxa_allocate_exception', '__cxa_throw', '__cxa_begin_catch', '__cxa_end_catch', '__cxa_rethrow', '__cxa_free_exception', 'memcpy', 'memmove', 'memset')
     for d in mod.decls:
-        if d not in ex.ext and not d.startswith('llvm.') and d not in LIBM: ex.ext[d] = raw_event_call(ex, d, d.startswith(PURE_PREFIXES))
+        if d.startswith('llvm.') or d in LIBM or d in UC_KEEP: continue
+        ex.ext[d] = raw_event_call(ex, d, d.startswith(PURE_PREFIXES))       # library calls (incl. std::string members) are events here, whatever models the engine has
     for d in mod.funcs:
         if d != 'main': ex.ext[d] = raw_event_call(ex, d, d.startswith(PURE_PREFIXES))
     ex.ext['_ZdlPv'] = ext_noop
@@ -607,7 +609,7 @@ def uc_run(mod, fname, args, overrides=None, max_paths=4000, track_uninit=False,
     dm = demangle(set(mod.decls) | set(mod.funcs))
     for d in list(mod.decls) + [x for x in mod.funcs if x != fname]:
         if d.startswith('llvm.') or d in LIBM: continue
-        if d in ex.ext and d not in mod.funcs and d in DEFAULT_EXT and not d.startswith('_Z'): continue
+        if d in ('memcpy', 'memmove', 'memset', 'strlen', 'memcmp', 'strcmp', '__cxa_allocate_exception', '__cxa_throw', '__cxa_begin_catch', '__cxa_end_catch', '__cxa_rethrow', '__cxa_free_exception'): continue
         dn = dm.get(d, d)
         memo = (d.startswith(PURE_PREFIXES) and not any(k in dn for k in nomemo)) or (dn.startswith(('std::vector<', 'std::array<')) and any(k in dn for k in ('::operator[](', '::data()', '::size()', '::empty()', '::front()', '::back()')))
         ex.ext[d] = raw_event_call(ex, d, memo)
